@@ -22,7 +22,32 @@ class C16(object):
     tolerances = {'entropies': 'atol 1e-9', 'chain': 'slack 1e-8', 'mss rows': 'generated conditional rows are equal or differ by >= 1e-3 (dit compares with is_approx_equal)'}
     exhaustive = {}
 
+    def gen_sigalg(self, rng, tier):
+        """Families of subsets of a small set: sigma_algebra / is_sigma_algebra(+__brute) / atom_set against Core/SigAlg.lean."""
+        for _ in range(40 if tier == 'quick' else 1500):
+            m = rng.randint(1, 6)
+            X = sorted(rng.sample(range(12), m))
+            style = rng.choice(['random', 'partition', 'chain', 'sigalg', 'almost'])
+            if style == 'partition':
+                lab = [rng.randrange(3) for _ in X]
+                C = [[x for x, l in zip(X, lab) if l == k] for k in sorted(set(lab))]
+            elif style == 'chain':
+                C = [X[:k] for k in sorted(set(rng.randint(0, m) for _ in range(3)))]
+            else:
+                C = []
+                for _ in range(rng.randint(1, 4)):
+                    c = [x for x in X if rng.random() < 0.5]
+                    if c not in C:
+                        C.append(c)
+            given_x = rng.random() < 0.5
+            if given_x and rng.random() < 0.4:
+                X = sorted(set(X) | set(rng.sample(range(12, 16), rng.randint(1, 2))))   # elements outside every set
+            yield {'kind': 'sigalg', 'style': style, 'C': C, 'X': X if given_x else None,
+                   'drop': rng.randrange(64), 'klass': 'tuple', 'n': 0, 'names': False, 'idx': 0, 'outs': []}
+
     def gen(self, rng, tier):
+        for c in self.gen_sigalg(rng, tier):
+            yield c
         n_cases = 110 if tier == 'quick' else 2000
         for _ in range(n_cases):
             n = rng.choice([2, 3, 3])
@@ -55,7 +80,7 @@ class C16(object):
             tot = sum(p for _, p in keep)
             outs = [o for o, _ in keep]
             pmf = [p / tot for _, p in keep]
-            kind = rng.choice(['join', 'meet', 'meet', 'mss', 'common'])
+            kind = rng.choice(['join', 'meet', 'meet', 'mss', 'common', 'latsig', 'latsig', 'trim'])
             vars_ = list(range(n))
             if n == 2:
                 groups = rng.choice([[[0], [1]], [[0], [1]], [[1], [0]]])
@@ -69,7 +94,10 @@ class C16(object):
             yield {'klass': rng.choice(['str', 'tuple']), 'n': n, 'outs': outs, 'pmf': [str(p) for p in pmf],
                    'style': style, 'kind': kind, 'groups': groups, 'idx': rng.choice([-1] + list(range(n + 1))),
                    'names': rng.random() < 0.3, 'rvs': [0] if n == 2 else rng.choice([[0], [0, 1]]),
-                   'about': [n - 1], 'cgroups': cgroups}
+                   'about': [n - 1], 'cgroups': cgroups,
+                   # latsig: the sample space may hold outcomes outside the support (the sigma-algebras partition the whole space)
+                   'extra': ([o for o in rng.sample(full, min(len(full), 3)) if o not in outs][:rng.randint(0, 2)]
+                             if kind == 'latsig' and len(outs) <= 6 else [])}
 
     def shrink(self, case):
         return []
@@ -134,6 +162,166 @@ class C16(object):
         if set(old) != set(src) or any(abs(old[k] - src[k]) > 1e-12 for k in src):
             r.oracle_fail = 'the joint distribution of the original variables changed under %s' % what
         return idx, part
+
+    # sigma-algebras ----------------------------------------------------------
+    @staticmethod
+    def fam(F):
+        return sorted(sorted(x) for x in F)
+
+    def run_sigalg(self, case, drv, r):
+        from dit.math.sigmaalgebra import sigma_algebra, is_sigma_algebra, is_sigma_algebra__brute, atom_set
+        C, X = case['C'], case['X']
+        r.features = ['kind=sigalg', 'style=%s' % case['style'], 'X=%s' % ('given' if X is not None else 'union')]
+        Cf = set(frozenset(c) for c in C)
+        F = sigma_algebra(Cf, None if X is None else frozenset(X))
+        got = self.fam(F)
+        want = self.fam(drv.call('sigalg', [C, X]))
+        r.nontrivial = len(got) >= 4
+        r.detail = {'impl': got, 'model': want}
+        if got != want:
+            r.mismatch = 'sigma_algebra(%s, %s): impl %s model %s' % (C, X, got, want)
+            return
+        U = sorted(set().union(*map(set, C))) if X is None else X
+        # the statement-level facts about the result, on the real objects
+        Fs = set(F)
+        if frozenset() not in Fs or frozenset(U) not in Fs or not all(frozenset(c) in Fs for c in C):
+            r.oracle_fail = 'sigma_algebra(%s) does not contain the empty set, the whole set and the generators' % (C,)
+            return
+        if any(frozenset(U) - a not in Fs for a in Fs) or any(a | b not in Fs for a in Fs for b in Fs):
+            r.oracle_fail = 'sigma_algebra(%s) is not closed under complement and union' % (C,)
+            return
+        # verdicts on the generated algebra and on a damaged copy
+        fams = [('generated', got)]
+        dmg = [x for i, x in enumerate(got) if i != case['drop'] % len(got)]
+        if dmg:
+            fams.append(('one member removed', dmg))
+        if case['style'] == 'almost' and len(C) >= 1:
+            fams.append(('generators only', self.fam(Cf | {frozenset(), frozenset(U)})))
+        for label, fam in fams:
+            Ff = set(frozenset(x) for x in fam)
+            if not Ff:
+                continue
+            Xarg = None if X is None else frozenset(X)
+            if Xarg is not None and any(not a <= Xarg for a in Ff):
+                continue
+            v = [bool(is_sigma_algebra(Ff, Xarg)), bool(is_sigma_algebra__brute(Ff, Xarg))]
+            Xm = X if X is not None else None
+            w = drv.call('issa', [fam, Xm])
+            if v != w:
+                r.mismatch = 'is_sigma_algebra / __brute on %s (%s): impl %s model %s' % (fam, label, v, w)
+                return
+            if label == 'generated' and v != [True, True]:
+                r.oracle_fail = 'the generated sigma-algebra %s is not recognised as one: %s' % (fam, v)
+                return
+            if X is None and v[0] != v[1] and sorted(set().union(*map(set, fam))) == sorted(U):
+                r.oracle_fail = 'is_sigma_algebra and is_sigma_algebra__brute disagree on %s: %s' % (fam, v)
+                return
+            a_impl = self.fam(atom_set(Ff))
+            a_model = self.fam(drv.call('atoms', [fam]))
+            if a_impl != a_model:
+                r.mismatch = 'atom_set(%s): impl %s model %s' % (fam, a_impl, a_model)
+                return
+        # atoms of the generated algebra: a partition of the whole set into blocks of identical membership
+        atoms = atom_set(set(F))
+        if sorted(x for a in atoms for x in a) != sorted(U):
+            r.oracle_fail = 'the atoms %s of sigma_algebra(%s) do not partition %s' % (self.fam(atoms), C, U)
+            return
+        sig = lambda x: tuple(x in c for c in C)
+        if any(len(set(sig(x) for x in a)) != 1 for a in atoms) or len(set(sig(next(iter(a))) for a in atoms)) != len(atoms):
+            r.oracle_fail = 'the atoms %s are not the classes of identical membership in %s' % (self.fam(atoms), C)
+
+    def run_latsig(self, case, drv, r):
+        dit = import_dit()
+        from dit.algorithms.lattice import induced_sigalg, join_sigalg, meet_sigalg, join, meet
+        from dit.math.sigmaalgebra import atom_set
+        klass = case['klass']
+        space = sorted(case['outs'] + case.get('extra', []))
+        outs = [gen.to_py(o, klass) for o in case['outs']]
+        d = dit.Distribution(outs, [float(Fraction(p)) for p in case['pmf']], sample_space=[gen.to_py(o, klass) for o in space])
+        if case['names']:
+            d.set_rv_names('XYZ'[:case['n']])
+        groups = case['groups']
+        back = lambda F: sorted(sorted(list(gen.from_py(o, klass)) for o in A) for A in F)
+        r.nontrivial = len(space) >= 4
+        for kind, f, arg in [('induced', induced_sigalg, None), ('join', join_sigalg, groups), ('meet', meet_sigalg, groups)]:
+            if kind == 'induced':
+                g = sorted(groups[0])
+                F = f(d, self.nm(case, g))
+                gm = [g]
+            else:
+                F = f(d, [self.nm(case, g) for g in groups])
+                gm = groups
+            got = back(F)
+            want = sorted(sorted(A) for A in drv.call('latsig', [kind, space, gm]))
+            if got != want:
+                r.mismatch = '%s_sigalg%s over the space %s: impl %d members, model %d members; impl-only %s model-only %s' % (
+                    kind, gm, space, len(got), len(want), [x for x in got if x not in want][:3], [x for x in want if x not in got][:3])
+                return
+            at = back(atom_set(F))
+            atm = sorted(sorted(A) for A in drv.call('latatoms', [kind, space, gm]))
+            cl = None
+            if kind in ('join', 'meet'):
+                cl = sorted(sorted(A) for A in drv.call('classes', [kind, space, gm]))
+            r.detail = {'kind': kind, 'atoms_impl': at, 'atoms_model': atm, 'classes_model': cl}
+            if at != atm:
+                r.mismatch = 'atoms of %s_sigalg%s: impl %s model %s' % (kind, gm, at, atm)
+                return
+            if cl is not None and at != cl:
+                # the two routes (sigma-algebra, partition) must agree: Props/C16Sigma proves it for the model
+                r.oracle_fail = 'atoms of %s_sigalg%s %s are not the %s of the sample space %s' % (
+                    kind, gm, at, 'classes of agreement on every group' if kind == 'join' else 'connected components', cl)
+                return
+        # the scalar distributions of join / meet: probabilities of the atoms
+        ps = {tuple(o): float(Fraction(p)) for o, p in zip(case['outs'], case['pmf'])}
+        for kind, f in (('join', join), ('meet', meet)):
+            sd = f(d, [self.nm(case, g) for g in groups])
+            cl = drv.call('classes', [kind, space, groups])
+            want = sorted(sum(ps.get(tuple(o), 0.0) for o in A) for A in cl)
+            want = [w for w in want if w > 1e-12]
+            got = sorted(float(p) for p in sd.pmf if float(p) > 1e-12)
+            if len(got) != len(want) or any(abs(a - b) > 1e-9 for a, b in zip(got, want)):
+                r.oracle_fail = 'dit.algorithms.lattice.%s%s has probabilities %s, the classes have %s' % (kind, groups, got, want)
+                return
+
+    def run_trim(self, case, drv, r):
+        dit = import_dit()
+        from dit.algorithms.minimal_sufficient_statistic import info_trim
+        d = self.build(case)
+        n = case['n']
+        groups = [[i] for i in range(n)]
+        dt = info_trim(d, [self.nm(case, g) for g in groups])
+        tab = [[o, q(Fraction(p))] for o, p in zip(case['outs'], case['pmf'])]
+        labels = []
+        for gi in groups:
+            cl = drv.call('mss', [tab, gi, sorted(set(range(n)) - set(gi))])
+            labels.append({tuple(o): k for k, c in enumerate(cl) for o in c})
+        joint = {}
+        for o, p in zip(case['outs'], case['pmf']):
+            key = tuple(l[tuple(o)] for l in labels)
+            joint[key] = joint.get(key, 0.0) + float(Fraction(p))
+        r.nontrivial = len(case['outs']) >= 4 and len(joint) < len(case['outs'])
+        got = {tuple(o): float(p) for o, p in zip(dt.outcomes, dt.pmf) if float(p) > 1e-12}
+        r.detail = {'impl': sorted(got.values()), 'model': sorted(joint.values())}
+        if dt.outcome_length() != n:
+            r.oracle_fail = 'info_trim returned %d variables for %d' % (dt.outcome_length(), n)
+            return
+        # equal up to renaming the symbols of each variable: same pmf multiset and the same entropy of every subset
+        if len(got) != len(joint) or any(abs(a - b) > 1e-9 for a, b in zip(sorted(got.values()), sorted(joint.values()))):
+            r.mismatch = 'info_trim: probabilities %s, joint law of the model\'s sufficient statistics %s' % (sorted(got.values()), sorted(joint.values()))
+            return
+        rows_i = [(list(o), p) for o, p in got.items()]
+        rows_m = [(list(o), p) for o, p in joint.items()]
+        rows_s = [(list(o), float(Fraction(p))) for o, p in zip(case['outs'], case['pmf'])]
+        for k in range(1, n + 1):
+            for S in itertools.combinations(range(n), k):
+                if abs(self.H(rows_i, S) - self.H(rows_m, S)) > 1e-9:
+                    r.mismatch = 'info_trim: H%s = %r, model %r' % (list(S), self.H(rows_i, S), self.H(rows_m, S))
+                    return
+        mi = lambda rows, a, b: self.H(rows, [a]) + self.H(rows, [b]) - self.H(rows, [a, b])
+        for a, b in itertools.combinations(range(n), 2):
+            if abs(mi(rows_i, a, b) - mi(rows_s, a, b)) > 1e-9:
+                r.oracle_fail = 'info_trim changed I(X%d:X%d): %r -> %r' % (a, b, mi(rows_s, a, b), mi(rows_i, a, b))
+                return
 
     def run_join(self, case, drv, r):
         dit = import_dit()
